@@ -68,6 +68,14 @@ CHECKS = {
             'shapes in Fill and in 12 argument positions (type, shape, leaves, sharing/cycles by graph isomorphism, no aliasing with the spec).',
             'Plain containers are generated only where the lexical mode defines their structure; the probe relies on the glomit protocol and the public MODE key.',
             '3/C08'),
+    'C07': ('model_checking',
+            'bounded exhaustive enumeration of binder/reader placements over spec tree shapes, each evaluated twice on the real glom, against a frame-chain reference interpreter',
+            'Every tree shape of depth <= 2 (and depth-3 extensions) over tuple, Pipe, dict, list, Coalesce, And, Or, Switch x a binder of each of 7 kinds at every slot p x a '
+            'reader of each compatible kind at every other slot q x optional failing leaf / shadowing binder / second reader at a third slot x caller scope; what every reader '
+            'saw (bound value, outer value, unbound) and the call outcome are compared with a reference that implements the frame rule; each spec object is evaluated twice '
+            '(nothing may survive the call) and the caller mapping is compared before/after; a fixed menu covers Match-dict keys, Regex groups, globals, Vars, Ref.',
+            'The reference encodes the reading of the visibility rule in DESIGN.md 3/C07; an unresolved Ref surfaces as KeyError.',
+            '3/C07'),
 }
 
 NOT_YET = {}
